@@ -314,5 +314,42 @@ pub fn run(mut run: Run) -> i32 {
             }
         }
     });
+    // long rings (up to thousands of coordinates): a 40 x 10 rectangle with a centred 10 x 4 hole, every side subdivided into k pieces: the area, the windings and
+    // orient do not depend on k
+    {
+        let ks: Vec<usize> = if quick { vec![1, 15, 16, 17, 63, 64, 65, 100, 1000] } else { vec![1, 2, 3, 15, 16, 17, 31, 32, 33, 63, 64, 65, 127, 128, 129, 255, 256, 257, 1000, 4097, 20000] };
+        run.stage("long-rings", ks.len() * 2, |idx, acc| {
+            let (k, rev) = (ks[idx / 2], idx % 2 == 1);
+            let densify = |corners: &[(f64, f64)]| -> LineString<f64> {
+                let mut out = vec![];
+                for w in corners.windows(2) {
+                    for i in 0..k {
+                        let t = i as f64 / k as f64;
+                        out.push(Coord { x: w[0].0 + (w[1].0 - w[0].0) * t, y: w[0].1 + (w[1].1 - w[0].1) * t });
+                    }
+                }
+                out.push(Coord { x: corners[0].0, y: corners[0].1 });
+                if rev {
+                    out.reverse();
+                }
+                LineString::new(out)
+            };
+            let pg = Polygon::new(densify(&[(0.0, 0.0), (40.0, 0.0), (40.0, 10.0), (0.0, 10.0), (0.0, 0.0)]), vec![densify(&[(15.0, 3.0), (15.0, 7.0), (25.0, 7.0), (25.0, 3.0), (15.0, 3.0)])]);
+            let want = if rev { -360.0 } else { 360.0 };
+            acc.evals += 3;
+            acc.class(format!("long ring reversed{}", rev));
+            use geo::winding_order::WindingOrder as W;
+            let r = guard(|| (pg.signed_area(), pg.unsigned_area(), pg.exterior().winding_order(), pg.interiors()[0].winding_order(), pg.orient(Direction::Default).signed_area()));
+            match r {
+                Ok((sa, ua, we, wi, oa)) => {
+                    let ok = (sa - want).abs() <= 1e-9 && (ua - 360.0).abs() <= 1e-9 && we == Some(if rev { W::Clockwise } else { W::CounterClockwise }) && wi == Some(if rev { W::CounterClockwise } else { W::Clockwise }) && (oa - 360.0).abs() <= 1e-9;
+                    if !ok {
+                        acc.viol("area / winding / orient of a finely subdivided rectangle with a hole is wrong".into(), idx, || json!({"pieces_per_side": k, "reversed": rev, "signed": sa, "unsigned": ua, "exterior_winding": format!("{:?}", we), "hole_winding": format!("{:?}", wi), "area_after_orient": oa}));
+                    }
+                }
+                Err(e) => acc.viol("area of a long ring panic".into(), idx, || json!({"pieces_per_side": k, "panic": e})),
+            }
+        });
+    }
     run.finish()
 }
